@@ -99,6 +99,24 @@ func (d *Driver) judge() {
 	if p.judges("C02") {
 		d.judgeC02()
 	}
+	if p.judges("C05") {
+		d.judgeC05()
+	}
+	if p.judges("C07") {
+		d.judgeC07()
+	}
+	if p.judges("C08") {
+		d.judgeC08()
+	}
+	if p.judges("C09") {
+		d.judgeC09()
+	}
+	if p.judges("C17") {
+		d.judgeC17rounds()
+	}
+	if p.judges("C19") {
+		d.judgeC19()
+	}
 	// keep only violations of judged properties (plus simulator trouble)
 	var keep []Violation
 	for _, v := range d.h.Viol {
